@@ -33,6 +33,8 @@ def relpath(p, root):
     if os.path.isabs(p):
         rp = os.path.realpath(p)
         rr = os.path.realpath(root)
+        if rp == rr:
+            return '.'
         if rp.startswith(rr + os.sep):
             return rp[len(rr) + 1:]
         return p
